@@ -25,8 +25,12 @@ Ltac c04_encl := c04_red; interval with (i_prec 80).
 Ltac c04_both := split; [vm_compute; reflexivity | c04_encl].
 
 (* enclosures of terms that contain integrals (cdfs) *)
+(* INR (fact n) is first turned into an integer literal: the unary numeral (1 + 1 + ... + 1, 5040 summands for 7!) made Interval's
+   reification take minutes for Beta(4,4) *)
+Ltac c04_fact := repeat match goal with |- context [INR (fact ?n)] =>
+  let z := eval vm_compute in (Z.of_nat (fact n)) in replace (INR (fact n)) with (IZR z) by (rewrite INR_IZR_INZ; reflexivity) end.
 Ltac c04_int0 := cbv [rsum rprod bc zip2 zip3 zip4 map combine repeat length fold_right fst snd hd normal_args normal_cdf normal_cdf1 normal_cdf_z
-                     std_normal_pdf gamma_int_cdf1 gamma_int_pdf beta_int_cdf1 beta_int_pdf fact Nat.add Nat.mul INR pow];
+                     std_normal_pdf gamma_int_cdf1 gamma_int_pdf beta_int_cdf1 beta_int_pdf]; c04_fact; cbv [Nat.add Nat.mul INR pow];
                 integral with (i_prec 60, i_fuel 400, i_relwidth 36).
 
 (* conjunctions: exact side conditions over Q, one integral per conjunct, and a purely rational final inequality *)
